@@ -708,6 +708,8 @@ def run(run):
         run.broken('NOMUTPOS', 'the base chain justify walks is finite and complete (linkClusters interpreted)', str(ex), '')
     poolsize(run, fx)
     poolcount(run, fx)
+    from . import posexec
+    posexec.finalise_exec(run, fx, rules=('JUSTADV', 'SHIFTFREE'), ids={'JUSTADV': 'NOMUTPOS', 'SHIFTFREE': 'NOMUTPOS'})      # the space justify adds widens the advance one for one
     try:
         from . import ordint as O2_
         cases_, bad_ = newjustify_exec(run, fx)
